@@ -186,6 +186,7 @@ class Repo:
             for f in sorted(fn):
                 if f.endswith(".py"):
                     paths.append(os.path.join(dp, f))
+        parsed = []
         for p in paths:
             rel = os.path.relpath(p, self.root)
             if rel in extra:
@@ -198,12 +199,21 @@ class Repo:
                 tree = ast.parse(src, filename=p)
             except SyntaxError as e:
                 raise AnchorMissing(f"{rel} does not parse: {e}")
+            parsed.append((p, rel, src, tree))
+        frozen = None
+        if not os.environ.get("SPVERIF_NO_INLINE") and not os.environ.get("SPVERIF_NO_ALIAS"):
+            from .inline import Frozen
+            frozen = Frozen({r: t for (_p, r, _s, t) in parsed})
+        for (p, rel, src, tree) in parsed:
             # N-inline: private helpers that are newer than the rules are analysed as part of their callers (spverif/inline.py)
             if not os.environ.get("SPVERIF_NO_INLINE"):
-                from .inline import normalise
+                from .inline import normalise, propagate_aliases
                 n_inl = normalise(tree, rel)
                 if n_inl:
                     self.inlined = getattr(self, "inlined", 0) + n_inl
+                # N-alias: a local name for a field that only __init__ writes is that field
+                if frozen is not None:
+                    self.aliases = getattr(self, "aliases", 0) + propagate_aliases(tree, frozen)
             name = rel[:-3].replace(os.sep, ".")
             if name.endswith(".__init__"):
                 name = name[: -len(".__init__")]
